@@ -71,18 +71,19 @@ pub fn xlate(codec: &str, model: &[u8], q: usize) -> Vec<u8> {
     out
 }
 
-fn seg(s: Seg, m: &[u8], q: usize) -> Vec<u8> {
+fn seg(s: Seg, m: &[u8], _q: usize) -> Vec<u8> {
     let n = m.len();
     match s {
         Seg::S => {
-            let hi_zero = m[..31].iter().all(|b| *b == 0);
-            let v = m[31] as usize;
-            if hi_zero && v < q {
+            // model: 30 zero bytes, then the value 0..=256 big-endian in two bytes
+            let hi_zero = m[..30].iter().all(|b| *b == 0);
+            let v = ((m[30] as usize) << 8) | m[31] as usize;
+            if hi_zero && v <= 256 {
                 Scalar::from(v as u64).to_be_bytes().to_vec()
             } else if hi_zero {
-                // value >= Q in the model: r + (v - q) >= r in the real field
+                // value >= Q in the model: r + (v - 257) >= r in the real field
                 let mut b = R_BE;
-                let add = (v - q) as u16 + b[31] as u16;
+                let add = ((v - 257) & 0xff) as u16 + b[31] as u16;
                 b[31] = (add & 0xff) as u8;
                 if add > 0xff {
                     b[30] = b[30].wrapping_add(1);
@@ -93,20 +94,25 @@ fn seg(s: Seg, m: &[u8], q: usize) -> Vec<u8> {
             }
         }
         Seg::G1 | Seg::G2c | Seg::G2u => {
+            // model: identity = [flag_ident, 0..]; element d (1..=256) = [flag_valid, 0.., d-1]
             let mid_zero = m[1..n - 1].iter().all(|b| *b == 0);
-            let v = m[n - 1] as usize;
+            let last = m[n - 1] as usize;
             let flags = m[0];
             let unc = s == Seg::G2u;
             let (canon_ident, canon_valid) = if unc { (0x40u8, 0x00u8) } else { (0xC0u8, 0x80u8) };
-            if !mid_zero || v >= q || (flags & 0x1F) != 0 {
+            if !mid_zero || (flags & 0x1F) != 0 {
                 return vec![0xFF; n];
             }
-            let (mut real, canon) = if v == 0 {
+            let ident = (flags & 0x40) != 0;
+            if ident && last != 0 {
+                return vec![0xFF; n];
+            }
+            let (mut real, canon) = if ident {
                 let mut r = vec![0u8; n];
                 r[0] = canon_ident;
                 (r, canon_ident)
             } else {
-                let sc = Scalar::from(v as u64);
+                let sc = Scalar::from(last as u64 + 1);
                 let r = match s {
                     Seg::G1 => (G1Projective::GENERATOR * sc).to_affine().to_compressed().to_vec(),
                     Seg::G2c => (G2Projective::GENERATOR * sc).to_affine().to_compressed().to_vec(),
